@@ -5,9 +5,9 @@ from mc.patterns import pat, P, H, obs_of
 PROPERTY_ID = "C18"
 RULE = ("bulk and one-step programs on the real helpers: all 2^16 byte pairs for ct_eq/ct_ne and all 256 bytes for ct_zero/ct_nonzero; all ordered pairs over "
         "{2^k, 2^k-1, 2^k+1 : k = 0..64} + 8 patterns for the eight u64 predicates; &[u8;N] for every N 0..=40: equal arrays and arrays differing in exactly one position "
-        "(every position, deltas +1, -1, ^0x80) for ct_eq/ct_ne/ct_zero/ct_nonzero/ct_lt/ct_ge; &[u8], &[u64;N], &[u64] likewise (unequal lengths must panic); Choice "
+        "(every position, deltas +1, -1, ^0x80) and in two positions with cancelling deltas (every pair of positions for selected N) for ct_eq/ct_ne/ct_zero/ct_nonzero/ct_lt/ct_ge; &[u8], &[u64;N], &[u64] likewise (unequal lengths must panic); Choice "
         "and/or/xor/negate/is_true/is_false/into-bool on all 4 input pairs; CtOption; masked swap/set for every (choice, array pair) over N in {1,4,5,10} and 6 limb "
-        "patterns; MacResult == for lengths 0..=40 incl. unequal lengths and every single differing position; Tag == for every single bit; oracle = python ==, <, <=; "
+        "patterns; MacResult == for lengths 0..=40 incl. unequal lengths and every single differing position; Tag == for every single bit, every pair of bits and equal byte deltas in every pair of bytes; oracle = python ==, <, <=; "
         "distinct = program text")
 ASSUMPTIONS = ["python comparison operators", "byte arrays are compared as big-endian numbers for ct_lt / ct_ge (the documented reading)",
                "slice helpers assert equal lengths: a panic there is a loud refusal, not a wrong answer"]
@@ -91,6 +91,20 @@ def shard_arrays(part, tier):
                     m = bytes(m)
                     cases.append((["ct_arr8 %s %s" % (H(base), H(m)), "ct_arr8 %s %s" % (H(m), H(base)), "ct_slice8 %s %s" % (H(base), H(m))],
                                   [arr8_exp(base, m), arr8_exp(m, base), b(base == m) + b(base != m)], None))
+            if n in (2, 3, 8, 9, 16, 17, 32, 33, 40):
+                for i in range(n):
+                    for j in range(i + 1, n):
+                        for kind in ("x", "a"):
+                            m = bytearray(base)
+                            if kind == "x":
+                                m[i] ^= 0x21
+                                m[j] ^= 0x21
+                            else:
+                                m[i] = (m[i] + 1) & 0xff
+                                m[j] = (m[j] - 1) & 0xff
+                            m = bytes(m)
+                            cases.append((["ct_arr8 %s %s" % (H(base), H(m)), "ct_slice8 %s %s" % (H(m), H(base))],
+                                          [arr8_exp(base, m), b(base == m) + b(base != m)], None))
         # unequal slice lengths: loud refusal
         cases.append((["ct_slice8 %s %s" % (H(bytes(n)), H(bytes(n + 1)))], ["PANIC"], None))
     # u64 arrays / slices, N = 0..8
@@ -143,6 +157,24 @@ def shard_misc(_, tier):
         m = bytearray(base)
         m[bit // 8] ^= 1 << (bit % 8)
         cases.append((["tag_eq %s %s" % (H(base), H(m))], ["FFFT"], None))
+    # differences in two positions that would cancel under folding / accumulation
+    for i in range(128):
+        for j in range(i + 1, 128):
+            m = bytearray(base)
+            m[i // 8] ^= 1 << (i % 8)
+            m[j // 8] ^= 1 << (j % 8)
+            cases.append((["tag_eq %s %s" % (H(base), H(m))], ["FFFT"], None))
+    for i in range(16):
+        for j in range(i + 1, 16):
+            for delta in (1, 0x80, 0xff):
+                m = bytearray(base)
+                m[i] ^= delta
+                m[j] ^= delta
+                cases.append((["tag_eq %s %s" % (H(base), H(m))], ["FFFT"], None))
+            m = bytearray(base)
+            m[i] = (m[i] + 1) & 0xff
+            m[j] = (m[j] - 1) & 0xff
+            cases.append((["tag_eq %s %s" % (H(base), H(m))], ["FFFT"], None))
     ck.run(cases)
     ck.stats.states = len(cases)
     return ck.stats
@@ -159,6 +191,18 @@ def shard_macres(_, tier):
                     m = bytearray(base)
                     m[pos] ^= x
                     cases.append((["macres_eq %s %s" % (H(base), H(m))], ["FFT"], None))
+            # two differing positions with equal xor delta / opposite additive delta (would cancel under folding or summing)
+            if n in (2, 3, 8, 16, 17, 20, 32, 40):
+                for i in range(n):
+                    for j in range(i + 1, n):
+                        m = bytearray(base)
+                        m[i] ^= 0x21
+                        m[j] ^= 0x21
+                        cases.append((["macres_eq %s %s" % (H(base), H(m))], ["FFT"], None))
+                        m = bytearray(base)
+                        m[i] = (m[i] + 1) & 0xff
+                        m[j] = (m[j] - 1) & 0xff
+                        cases.append((["macres_eq %s %s" % (H(base), H(m))], ["FFT"], None))
             # unequal lengths: prefix / extension with zero and with a copied byte
             cases.append((["macres_eq %s %s" % (H(base), H(base + b"\x00"))], ["FFT"], None))
             if n:
